@@ -16,17 +16,17 @@ import (
 )
 
 type vfReco struct {
-	Label  string
-	NStr   int
-	NMsg   int
-	Unord  bool
-	IL     bool
-	Faults []vfFault
-	Cycles int
+	Label   string
+	NStr    int
+	NMsg    int
+	Unord   bool
+	IL      bool
+	Faults  []vfFault
+	Cycles  int
 	BWrites bool
-	Seq    bool // streams are written and closed one after the other while everything is still queued
-	Big    bool // messages large enough to stay queued behind cwnd when the stream is closed
-	Base   [2]uint32
+	Seq     bool // streams are written and closed one after the other while everything is still queued
+	Big     bool // messages large enough to stay queued behind cwnd when the stream is closed
+	Base    [2]uint32
 }
 
 func vfRunReco(t *testing.T, tr *vfTrace, x vfReco) bool {
@@ -321,8 +321,8 @@ func init() {
 					w.finish(true)
 					return
 				}
-				ord := map[int]int{}            // pid -> ordinal
-				cnt := map[[2]any]int{}         // (from, kind) -> packets seen
+				ord := map[int]int{}    // pid -> ordinal
+				cnt := map[[2]any]int{} // (from, kind) -> packets seen
 				scan := func() {
 					for _, p := range w.pending(-1) {
 						if _, ok := ord[p.id]; ok {
@@ -464,6 +464,22 @@ func init() {
 					w.tr.emit(map[string]any{"ev": "note", "what": "replay-drift: " + drift, "t": w.now()})
 				} else {
 					done++
+				}
+				// every fourth behaviour ends with Close racing the delivery of whatever is still in the network: the
+				// packets are handed over and Close is called at once on both sides, without waiting in between
+				// (teardown while RE-CONFIG responses are being processed: every timer must end up stopped, C09)
+				if k%4 == 1 && drift == "" {
+					for _, p := range w.pending(-1) {
+						if q := w.take(p.id); q != nil {
+							w.tr.emit(map[string]any{"ev": "rx", "to": 1 - q.from, "pid": q.id, "t": w.now(), "ok": true})
+							w.push(1-q.from, q.raw)
+						}
+					}
+					w.tr.emit(map[string]any{"ev": "api", "ep": 0, "op": "close-call", "t": w.now()})
+					w.tr.emit(map[string]any{"ev": "api", "ep": 1, "op": "close-call", "t": w.now()})
+					done++
+					w.finish(true)
+					return
 				}
 				// epilogue: a stream that is still open is written once more (a renumbered or reset incarnation
 				// shows as a wrong sequence number on the wire and a message that is never delivered)
